@@ -1,7 +1,7 @@
 (* C03 - lexical scoping, closures and one-time defaults.  Statements only.
    [Extracted.Idents] is regenerated from the Rust source on every run. *)
 From Coq Require Import List ZArith NArith String.
-From Xr Require Import Base.Res Base.Show Lang.Syntax Lang.Eval Lang.Ident Extracted.Idents Lang.Cells Lang.Forward.
+From Xr Require Import Base.Res Base.Show Lang.Syntax Lang.Eval Lang.Ident Extracted.Idents Lang.Cells Lang.Forward Lang.ForwardProofs.
 Import ListNotations.
 Open Scope string_scope.
 
@@ -67,6 +67,20 @@ Example C03_cells_nonvacuous :
   map (walk st 0) [0; 1; 2; 3; 4] = map (walk (close_all st) 0) [0; 1; 2; 3; 4].
 Proof. vm_compute. repeat split; reflexivity. Qed.
 
+(* forward declarations, UNBOUNDED: after ANY program of forward declarations, definitions (a callee has a smaller name than its
+   caller) and invocations - any length, any number of functions - an invocation that the compiler's bookkeeping accepts
+   (requirements recorded when a function is defined, checked transitively through the implementations of fulfilled declarations)
+   reaches no function without a body: "a function that depends on a forward declaration cannot be invoked before that declaration
+   is fulfilled" *)
+Theorem C03_forward_gate_sound : forall es s f, Forall wf_event es -> run empty es = Ok s ->
+  step s (Use f) = Ok s -> safe_now s f = true /\ Safe s f.
+Proof. exact gate_sound. Qed.
+(* a rejected invocation has an unmet requirement (that every unmet requirement is a reachable function without body - the gate
+   rejects nothing that is safe - is the bounded statement below) *)
+Theorem C03_forward_gate_rejects_unmet : forall es s f, Forall wf_event es -> run empty es = Ok s ->
+  step s (Use f) = MissingForward -> exists l r, reqs_of s f = Some l /\ In r l /\ Unmet s r.
+Proof. exact gate_rejects_unmet. Qed.
+
 (* forward declarations: the compiler's bookkeeping (requirements recorded when a function is defined, checked transitively
    through the implementations of fulfilled declarations when a function is invoked) accepts an invocation exactly when no
    function reachable from it lacks a body.  BOUNDED statement (an exhaustive sweep lifted to a quantified statement, not an
@@ -94,3 +108,5 @@ Print Assumptions C03_rethreading_one_scope.
 Print Assumptions C03_cells_nonvacuous.
 Print Assumptions C03_forward_gate_bounded.
 Print Assumptions C03_forward_shallow_rule_refuted.
+Print Assumptions C03_forward_gate_sound.
+Print Assumptions C03_forward_gate_rejects_unmet.
